@@ -99,7 +99,8 @@ def rule_diff(ctx):
     # the rule reads one shape: the first difference np.diff(values, axis=idx), padded / relabelled, and higher orders by recursion.  A function that hands the order to
     # NumPy (np.diff(values, n=...)) computes the same numbers another way; whether its padding and labels agree for every n is an arithmetic question out of reach here
     evj = run(ctx, fi, mode='join', facts=not_none)
-    for p in evj.paths:
+    recursion = any(T.dotted(e.a[1]) not in ('np.diff', 'numpy.diff') for p in evj.paths for e in p.calls('diff'))
+    for p in evj.paths if not recursion else []:
         for e in p.calls('diff'):
             if T.dotted(e.a[1]) in ('np.diff', 'numpy.diff'):
                 n_arg = T.arg(e.a, 1, 'n')
